@@ -22,6 +22,10 @@ pub const DEF: PropDef = PropDef {
 
 type Dict = CodecRegion<DictionaryCodec>;
 
+/// Numbers of distinct strings around the sizes at which the heavy-hitter summary compacts
+/// (buffer of 1024 entries, 512 kept).
+const BOUNDARY_DISTINCT: [usize; 11] = [1, 2, 255, 256, 257, 511, 512, 513, 1023, 1024, 1025];
+
 fn jobs(plan: &Plan) -> Vec<Job> {
     let t = plan.tier;
     let mut v = Vec::new();
@@ -30,6 +34,9 @@ fn jobs(plan: &Plan) -> Vec<Job> {
     }
     for h in 0..t.pick(3, 40, 0) {
         v.push(standalone("codec-dict", "compaction", h, compaction));
+    }
+    for h in 0..BOUNDARY_DISTINCT.len() as u64 * 2 {
+        v.push(standalone("codec-dict", "summary-boundaries", h, summary_boundaries));
     }
     v
 }
@@ -58,6 +65,8 @@ fn required(plan: &Plan) -> Vec<String> {
         "pool-shape:3",
         "pool-shape:4",
         "entry-in-last-table-slot",
+        "summary-boundary:512",
+        "summary-boundary:1024",
     ]
     .iter()
     .map(|s| s.to_string())
@@ -522,6 +531,47 @@ fn compaction(ctx: &mut Ctx) {
         }
     }
     let _ = m.check(ctx, false);
+    ctx.nontrivial = true;
+    ctx.end_history();
+}
+
+/// d distinct strings, absorbed round-robin until the summary buffer has filled once
+/// (variant 0) or twice (variant 1), for d around the summary's internal sizes; then a merged
+/// generation that re-absorbs them. Nothing may panic and everything must read back.
+fn summary_boundaries(ctx: &mut Ctx) {
+    let d = BOUNDARY_DISTINCT[(ctx.hist_no / 2) as usize];
+    let fills = 1 + (ctx.hist_no % 2) as usize;
+    let strings: Vec<Vec<u8>> = (0..d).map(|i| format!("k{i:04}").into_bytes()).collect();
+    let total = 1024 * fills + 3;
+    let mut src = Obs::fresh("src");
+    ctx.log(format!("src = default region fed {total} strings cycling through {d} distinct ones"));
+    for k in 0..total {
+        if !matches!(src.push(ctx, &strings[k % d]), Outcome::Stored(_)) {
+            ctx.end_history();
+            return;
+        }
+        if k % 256 == 0 && !src.check(ctx, true) {
+            ctx.end_history();
+            return;
+        }
+    }
+    ctx.log.truncate(1);
+    if !src.check(ctx, false) {
+        ctx.end_history();
+        return;
+    }
+    ctx.cover(&format!("summary-boundary:{d}"));
+    if let Some(mut m) = Obs::merged(ctx, "merged", &[&src]) {
+        for (k, s) in strings.iter().enumerate() {
+            if !matches!(m.push(ctx, s), Outcome::Stored(_)) {
+                break;
+            }
+            if k % 64 == 0 && !m.check(ctx, true) {
+                break;
+            }
+        }
+        let _ = m.check(ctx, false);
+    }
     ctx.nontrivial = true;
     ctx.end_history();
 }
